@@ -100,6 +100,82 @@ PLANS = {
 }
 
 
+# ------------------------------------------------------------------ C19
+
+def run_C19(ctx, K):
+    import re
+    # 1. regenerate the protocol program from the Go source; evaluate the hypotheses of C19_mutex on it
+    b = K.go_build(ctx, "statusextract")
+    if b:
+        prog = os.path.join(ctx.rundir, "status_prog.v")
+        rep = K.run_tool(ctx, b, ["-repo", K.REPO, "-coq", prog, "-seed", str(ctx.seed)], "status-extract", timeout=300)
+        if rep:
+            ctx.coq_cases += rep.get("coq_cases", 0)
+            rc, out = K.sh(["coqc", "-Q", "theories", "incr", prog], 600, cwd=K.COQ)
+            open(os.path.join(ctx.workdir, "status_prog.log"), "w").write(out)
+            m = re.search(r"\bOK\s*=\s*(true|false)", out)
+            progs = ["%s = %s" % (s.get("func"), s.get("text")) for s in (rep.get("samples") or [])
+                     if isinstance(s, dict) and s.get("text")]
+            if rc != 0 or not m:
+                ctx.coq_mismatch += 1
+                ctx.violation("the regenerated status protocol (status_prog.v) does not compile against Status.v: %s" % out.strip()[-500:],
+                              "corr:status-protocol", dict(kind="correspondence", correspondence="status_prog.v", coqc_output=out[-3000:]),
+                              no_input=True)
+            elif m.group(1) != "true":
+                ctx.coq_mismatch += 1
+                ctx.violation("the status protocol regenerated from the Go source does not satisfy the hypotheses of C19_mutex "
+                              "(acquires_atomically && releases_last = false): %s" % "; ".join(progs),
+                              "proto:hypotheses", dict(kind="extracted-protocol", programs=progs, coqc_output=out[-1500:]), no_input=True)
+    # 2. the real library: expert-API replay of the refutation schedule, all interleavings of 2 and 3 callers,
+    #    re-entrant calls, stress loop (child process)
+    b = K.go_build(ctx, "statusrace")
+    if b:
+        K.run_tool(ctx, b, ["-seed", str(ctx.seed), "-rounds", str(tier_n(ctx, 300, 5000))], "status-race", timeout=1500)
+
+
+# ------------------------------------------------------------------ C20
+
+def run_C20(ctx, K):
+    b = K.go_build(ctx, "batchgate")
+    if not b:
+        return
+    cases = os.path.join(ctx.rundir, "cases_C20.v")
+    rep = K.run_tool(ctx, b, ["-seed", str(ctx.seed), "-extra", str(tier_n(ctx, 6, 60)), "-reps", str(tier_n(ctx, 1, 3)),
+                              "-coq", cases, "-coqmax", "400"], "batch-gate", timeout=1500)
+    if rep:
+        ctx.coq_cases += rep.get("coq_cases", 0)
+        K.run_cases(ctx, cases, "Batch.v (Semaphore: min w p in flight)~parallel_batch.go (gated ParallelStabilize)")
+
+
+PLANS_C19_C20 = {
+    "C19": dict(
+        run=run_C19,
+        assumptions=[
+            "partial: the Go scheduler and memory model are outside the model; sync/atomic operations on graph.status are taken to be sequentially consistent",
+            "the protocol program is regenerated from graph.go/stabilize.go/parallel_stabilize.go by cmd/statusextract on every run (symbolic execution over go/ast; "
+            "any plain access to the status field, any atomic write of it outside Stabilize/ParallelStabilize, or any shape it cannot fold into a straight-line program is a failure)",
+            "what node functions and handlers do to the graph is abstracted to the marker actions Work / Handlers; panics are not modelled "
+            "(the deferred stabilizeEnd releases on every exit)",
+        ],
+        trusted_base=TB_COMMON + ["cmd/statusextract (Go AST -> action list), in place of a hand-written model",
+                                  "no verif hook: the replay uses the public ExpertGraph API by reflection"],
+        checker_cmd="make -C coq && coqc theories/Properties/C19.v && statusextract -coq run/status_prog.v && coqc run/status_prog.v (OK = true)",
+    ),
+    "C20": dict(
+        run=run_C20,
+        assumptions=[
+            "partial: the Go scheduler is outside the model; a schedule is any list of step labels of the parallelBatch transition system",
+            "Batch.v is hand-written from the 20 lines of parallel_batch.go (Current variant) next to the discipline the option promises (Semaphore variant); "
+            "which one the library implements is decided on every run by the gated ParallelStabilize (AsIs / M in run/cases_C20.v)",
+            "the bound is about one parallelBatch call = one height block; ParallelStabilize runs blocks one after another (wg.Wait between them)",
+        ],
+        trusted_base=TB_COMMON + ["public API only (no verif hook); timing can only lower the reading of the gate harness"],
+        checker_cmd="make -C coq && coqc theories/Properties/C20.v && batchgate -coq run/cases_C20.v && coqc run/cases_C20.v (M = [])",
+    ),
+}
+
+PLANS.update(PLANS_C19_C20)
+
 for _pid in ENGINE_STREAMS:
     PLANS[_pid] = engine_plan(_pid)
 
